@@ -19,13 +19,13 @@ Proof.
 Qed.
 
 (* every spelling of every well-formed route yields the stated host, TCP port and route bytes
-   (route = the reference wire form of the hops; [small_ports]: see C15_full_refuted) *)
+   (route = the reference wire form of the hops), for every CIP port number 1..65535 *)
 Theorem parse_sound a sp auto pl hs :
   wf_route a = true -> wf_spelling sp a = true -> hops_of auto (r_shape a) = Some hs ->
-  small_ports hs = true -> fits hs = true ->
+  fits hs = true ->
   outcome (render sp a) auto pl = inr (r_host a, r_tcp a, route_wire pl hs).
 Proof.
-  intros Hwf Hsp Hh Hs Hf. apply grammar_accepted; [|exact Hs].
+  intros Hwf Hsp Hh Hf. apply grammar_accepted.
   rewrite (ref_parse_render a sp auto Hwf Hsp), Hh. unfold must_accept. cbn [v_tcp v_route v_host].
   destruct (r_tcp a); cbn [tcp_reading]; now rewrite Hf.
 Qed.
@@ -57,19 +57,19 @@ Proof. repeat split; reflexivity. Qed.
 
 Theorem driver_init_sound d a sp hs :
   wf_route a = true -> wf_spelling sp a = true -> hops_of (auto_slot_of d) (r_shape a) = Some hs ->
-  small_ports hs = true -> fits hs = true ->
+  fits hs = true ->
   exists segs, driver_init d (render sp a)
                = Ok (mkCfg (r_host a) (match r_tcp a with Some p => p | None => TCP_DEFAULT end) segs)
                /\ forall pl, encode_route segs pl = Ok (route_wire pl hs).
 Proof.
-  intros Hwf Hsp Hh Hs Hf.
-  pose proof (parse_sound a sp (auto_slot_of d) true hs Hwf Hsp Hh Hs Hf) as Ht.
+  intros Hwf Hsp Hh Hf.
+  pose proof (parse_sound a sp (auto_slot_of d) true hs Hwf Hsp Hh Hf) as Ht.
   apply outcome_inr in Ht as [segs [Hp He]]. exists segs. split.
   - unfold driver_init. rewrite Hp. cbn [bind]. f_equal. f_equal.
     unfold wf_route in Hwf. apply andb_prop in Hwf as [Hwf _]. apply andb_prop in Hwf as [_ Ht].
     destruct (r_tcp a) as [p|]; [|reflexivity]. unfold wf_tcp in Ht.
     replace (p =? 0) with false by lia. reflexivity.
-  - intros pl. pose proof (parse_sound a sp (auto_slot_of d) pl hs Hwf Hsp Hh Hs Hf) as Ht'.
+  - intros pl. pose proof (parse_sound a sp (auto_slot_of d) pl hs Hwf Hsp Hh Hf) as Ht'.
     apply outcome_inr in Ht' as [segs' [Hp' He']]. rewrite Hp in Hp'. injection Hp' as <-. exact He'.
 Qed.
 
@@ -294,4 +294,51 @@ Proof.
   intros Hwf Hsp Hh Hf. unfold in_grammar_strict, must_accept.
   rewrite (ref_parse_render a sp auto Hwf Hsp), Hh. cbn [v_tcp v_route].
   destruct (r_tcp a); cbn [tcp_reading]; now rewrite Hf.
+Qed.
+
+(* ---------------------------------------------------------------- side conditions discharged *)
+(* every route of at most 25 hops has a wire form (the property speaks of 0-4 hops) *)
+Lemma hop_bytes_len h : wf_hop h = true -> (List.length (hop_bytes h) <= 20)%nat.
+Proof.
+  unfold wf_hop. intros H. apply andb_prop in H as [_ Hl]. pose proof (link_bytes_len _ Hl) as Hlen.
+  unfold hop_bytes. set (lb := link_bytes (h_link h)) in *.
+  destruct (h_port h <? 15); destruct (1 <? tlen lb);
+    repeat (rewrite app_length; cbn [List.length]);
+    match goal with |- context [if ?b then _ else _] => destruct b end; cbn [List.length]; lia.
+Qed.
+Lemma hops_bytes_len hs : forallb wf_hop hs = true ->
+  (List.length (hops_bytes hs) <= 20 * List.length hs)%nat.
+Proof.
+  induction hs as [|h hs IH]; cbn [forallb hops_bytes flat_map List.length]; [lia|].
+  intros H. apply andb_prop in H as [H1 H2]. rewrite app_length.
+  pose proof (hop_bytes_len h H1). specialize (IH H2). unfold hops_bytes in IH. lia.
+Qed.
+Theorem short_routes_fit hs : forallb wf_hop hs = true -> (List.length hs <= 25)%nat -> fits hs = true.
+Proof.
+  intros Hw Hl. pose proof (hops_bytes_len hs Hw). unfold fits, route_words, tlen. lia.
+Qed.
+
+(* every IPv4 address, given by its four octets, is a well-formed link *)
+Lemma octet_print_sweep :
+  forallb (fun k => octet (print_nat_z (Z.of_nat k))) (seq 0 256) = true.
+Proof. vm_compute. reflexivity. Qed.
+Lemma octet_print n : 0 <= n <= 255 -> octet (print_nat_z n) = true.
+Proof.
+  intros H. pose proof octet_print_sweep as S. rewrite forallb_forall in S.
+  specialize (S (Z.to_nat n)). rewrite Z2Nat.id in S by lia. apply S. apply in_seq. lia.
+Qed.
+Lemma print_none_dot n : none_of is_dot (print_nat_z n) = true.
+Proof.
+  apply digits_none; [|apply print_nat_z_digits]. intros c. unfold is_ascii_digit, is_dot, DOT. lia.
+Qed.
+Theorem addr_of_octets_wf a b c d :
+  0 <= a <= 255 -> 0 <= b <= 255 -> 0 <= c <= 255 -> 0 <= d <= 255 ->
+  wf_link (Addr (addr_of_octets a b c d)) = true.
+Proof.
+  intros Ha Hb Hc Hd. cbn [wf_link]. unfold strict_quad, addr_of_octets. cbn [app].
+  rewrite (fields_app_sep is_dot _ DOT _ (print_none_dot a) eq_refl).
+  rewrite (fields_app_sep is_dot _ DOT _ (print_none_dot b) eq_refl).
+  rewrite (fields_app_sep is_dot _ DOT _ (print_none_dot c) eq_refl).
+  rewrite (fields_none is_dot _ (print_none_dot d)). cbn [fst snd].
+  now rewrite !octet_print.
 Qed.
